@@ -230,6 +230,7 @@ pub fn region_profile() -> Profile {
         Mode::BlockExit,
     ];
     p.region_interior = true;
+    p.opener_special = true;
     p.mean_ops = 5;
     p
 }
@@ -385,6 +386,10 @@ pub fn additions_profile() -> Profile {
         ("add_export_mem", 2),
         ("delete_export", 2),
         ("mod_global_init", 3),
+        // additions are also made after (or before) original entities were deleted: the returned IDs
+        // must still designate the added items once the index spaces are re-organised
+        ("delete_global", 1),
+        ("delete_memory", 1),
     ]);
     p.mean_ops = 5;
     p
@@ -548,12 +553,12 @@ fn owns(id: &str, m: &Mismatch) -> bool {
         "C14" => {
             k == "local_decl" || (k == "returned_id" && s == "add_local") || (k == "unexpected_panic" && s.starts_with("op:add_local"))
         }
-        "C18" => k == "removed_region_probe" && s == "block_entry",
-        "C19" => k == "removed_region_probe" && s == "block_exit",
-        "C20" => k == "removed_region_probe" && s == "semantic_after",
+        "C18" => matches!(k, "removed_region_probe" | "replaced_opener_probe") && s == "block_entry",
+        "C19" => matches!(k, "removed_region_probe" | "replaced_opener_probe") && s == "block_exit",
+        "C20" => matches!(k, "removed_region_probe" | "replaced_opener_probe") && s == "semantic_after",
         // C21: "all other instructions and their instrumentation are unaffected" - a probe outside the
         // replaced construct that is missing from the output is a C21 matter as well
-        "C15" | "C21" => k == "body_sequence" || (id == "C21" && matches!(k, "removed_region_probe" | "probe_missing")) || (k == "unexpected_panic" && (s.starts_with("op:inject") || s.starts_with("encode"))) || k == "invalid_output",
+        "C15" | "C21" => k == "body_sequence" || (id == "C21" && matches!(k, "removed_region_probe" | "replaced_opener_probe" | "probe_missing")) || (k == "unexpected_panic" && (s.starts_with("op:inject") || s.starts_with("encode"))) || k == "invalid_output",
         "C22" => matches!(k, "probe_missing" | "bug_log_line"),
         // (the ID `add` returns is the handle later modifications go through)
         "C28" => k == "custom_section" || (k == "returned_id" && s == "custom_add") || (k == "unexpected_panic" && s.starts_with("op:custom")),
@@ -698,7 +703,63 @@ pub fn diff_site(a: &[u8], b: &[u8]) -> String {
 }
 
 /// C04: same scenario under several hash seeds must give identical bytes.
+/// The outcome line C04 compares for one scenario under hash seed 0 (module histories: the first
+/// encoding; component plans: the encoded component after the ComponentIterator walk).
+pub fn c04_outcome(sc: &Scenario) -> String {
+    let mut s0 = sc.clone();
+    s0.hash_seed = 0;
+    if s0.comp.is_some() {
+        crate::c26::comp_outcome(&s0)
+    } else {
+        outcome_text(&run(&s0))
+    }
+}
+
+/// The component share of C04: the same plan (pre-ops, skip map, walk with injections, encode) driven
+/// through `ComponentIterator` under several hash seeds and, for replays of cross-process findings, in
+/// fresh processes of the unhooked build. The twin side of the plan (per-module iterators) is executed
+/// too but plays no part in the verdict.
+fn judge_c04_comp(sc: &Scenario, seeds: usize) -> (Judged, RunResult) {
+    let dummy = run(&Scenario { tail: vec![], ..Default::default() });
+    let mut owned: Vec<Mismatch> = vec![];
+    let o0 = c04_outcome(sc);
+    let mut harness_error = o0.strip_prefix("harness ").map(|e| e.to_string());
+    if harness_error.is_none() {
+        for k in 1..seeds {
+            let mut s = sc.clone();
+            s.hash_seed = if k < 3 { k as u64 } else { crate::rng::mix(sc.hash_seed, k as u64) };
+            let o = crate::c26::comp_outcome(&s);
+            if o != o0 {
+                owned.push(Mismatch::new(
+                    "nondeterministic_bytes",
+                    "component",
+                    format!("hash seed {} gives a different encoded component than hash seed 0: {} vs {}", s.hash_seed, &o[..o.len().min(48)], &o0[..o0.len().min(48)]),
+                ));
+                break;
+            }
+        }
+    }
+    if owned.is_empty() && sc.xproc > 0 && harness_error.is_none() {
+        match xproc_outcomes(sc, sc.xproc) {
+            Err(e) => harness_error = Some(e),
+            Ok(outs) => {
+                if let Some((k, o)) = outs.iter().enumerate().find(|(_, o)| **o != o0) {
+                    owned.push(Mismatch::new(
+                        "nondeterministic_bytes",
+                        "process",
+                        format!("execution {k} in a fresh process of the unhooked build (std RandomState) differs from the hooked seed-0 component: {} vs {}", &o[..o.len().min(48)], &o0[..o0.len().min(48)]),
+                    ));
+                }
+            }
+        }
+    }
+    (Judged { owned, others: vec![], harness_error }, dummy)
+}
+
 pub fn judge_c04(sc: &Scenario, seeds: usize) -> (Judged, RunResult) {
+    if sc.comp.is_some() {
+        return judge_c04_comp(sc, seeds);
+    }
     let mut s0 = sc.clone();
     s0.hash_seed = 0;
     let r0 = run(&s0);
